@@ -300,6 +300,22 @@ def lean_cfg(e):
 def crate_imports(path):
     """modules of this crate named in `use crate::...` items of a file"""
     toks = tokenize(open(path, encoding="utf-8").read())
+    # drop `#[cfg(test)] mod <name> { ... }` blocks: they are not part of the library build
+    kept = []
+    i = 0
+    while i < len(toks):
+        if is_p(toks[i], "#") and i + 1 < len(toks) and is_p(toks[i + 1], "["):
+            path_, inner, j = split_attr(toks, i)
+            if path_ == ["cfg"] and inner is not None and [t.text for t in inner] == ["test"]:
+                k = j
+                while k < len(toks) and is_p(toks[k], "#"):
+                    _, _, k = split_attr(toks, k)
+                if k + 2 < len(toks) and toks[k].text == "mod" and is_p(toks[k + 2], "{"):
+                    i = matching(toks, k + 2) + 1
+                    continue
+        kept.append(toks[i])
+        i += 1
+    toks = kept
     mods = []
     i = 0
     while i < len(toks):
